@@ -135,22 +135,22 @@ class FilReader(Filterbank):
             )
             raise ValueError(msg)
 
-        self._file.seek(start * self.samp_stride)
+        # Channel c needs the input samples [start + delay_c, start + delay_c + nsamps)
+        first_sample = int(min_sample.min())
+        last_sample = int(max_sample.max())
+        self._file.seek(first_sample * self.samp_stride)
         samples_read = np.zeros(self.header.nchans, dtype=int)
         data = np.zeros((self.header.nchans, nsamps), dtype=self._file.bitsinfo.dtype)
 
-        for isamp in track(range(nsamps), description="Reading dedispersed data ..."):
-            samples_offset = start + isamp
-            relevant_chans = np.argwhere(
+        for samples_offset in track(
+            range(first_sample, last_sample),
+            description="Reading dedispersed data ...",
+        ):
+            chans_slice = np.flatnonzero(
                 np.logical_and(
                     max_sample > samples_offset,
                     min_sample <= samples_offset,
                 ),
-            ).flatten()
-            chans_slice = np.arange(
-                relevant_chans.min(),
-                relevant_chans.max() + 1,
-                dtype=int,
             )
             # Read channel data for for each sample
             sample_data = self._file.cread(self.header.nchans)
